@@ -107,3 +107,5 @@ pub assume_specification<P: core::str::pattern::Pattern>[ str::starts_with::<P> 
 pub assume_specification<P: core::str::pattern::Pattern>[ str::ends_with::<P> ](s: &str, p: P) -> (r: bool)
     where for<'a> P::Searcher<'a>: core::str::pattern::ReverseSearcher<'a>,
     ensures r == str_ends_with_pat(s@, p);
+pub assume_specification[ str::repeat ](s: &str, n: usize) -> (r: String)
+    ensures r@.len() == s@.len() * n, forall|i: int| 0 <= i < r@.len() ==> #[trigger] r@[i] == s@[i % (s@.len() as int)];
